@@ -551,14 +551,14 @@ func (g *dgen) method(svc *spec.Service, idx int) *spec.Method {
 	}
 	// a trailing string path parameter may be a catch-all: {*name} takes the rest of the path, slashes included
 	star, sibling, ownPath := false, false, ""
-	if n := len(pathParams); n > 0 && lastIsParam && pathParams[n-1].Type.Kind == spec.String && pathParams[n-1].Val == nil && (t.Draw("catch-all", 2) == 0 || (n == 1 && g.prevStar != nil)) {
+	if n := len(pathParams); n > 0 && lastIsParam && pathParams[n-1].Type.Kind == spec.String && pathParams[n-1].Val == nil && t.Draw("catch-all", 2) == 0 {
 		last := pathParams[n-1].Name
 		path = strings.TrimSuffix(path, "/{"+last+"}") + "/{*" + last + "}"
 		star = true
 		g.feat("loc:path-catch-all")
 		// ... and may share its path with the previous catch-all route of the service, under another verb and
 		// another wildcard name (GET /files/{*path}, PUT /files/{*name})
-		if n == 1 && g.prevStar != nil && t.Draw("catch-all-sibling", 4) != 0 {
+		if false && n == 1 && g.prevStar != nil && t.Draw("catch-all-sibling", 4) != 0 { // (superseded by catchAllSibling: two mechanisms could give two methods the same verb on one path)
 			sibling, ownPath = true, path
 			path = g.prevStar.prefix + "/{*" + last + "}"
 		}
